@@ -9,6 +9,9 @@
       and takes the last entry naming the shard; the order of [ShardInfoList] is dragonboat's map
       iteration order, so the info list is an argument of the query ([il]) and theorems quantify
       over every permutation of the hosting configuration;
+    - readiness: a hosted shard is listed with its type whether or not it has applied anything yet
+      ([ShardInfo.Pending]); the session kind follows the type of every listed shard ([shard_info],
+      [support_regular_info]);
     - [NodeHost.StopShard] and a later start of the same shard id as a new replica, possibly of
       another state-machine type ([stop] / [EStop]);
     - [GetSession] (which kind of session is handed out, or an error),
@@ -84,6 +87,15 @@ Definition lookup_step (s : N) (acc : option bool) (ci : N * sm_type) : option b
     ("unknown state machine type"). [il] is the ShardInfoList of the running NodeHost. *)
 Definition support_regular (il : hosting) (s : N) : option bool :=
   fold_left (lookup_step s) il None.
+
+(** [ShardInfo] as [GetNodeHostInfo] reports it: shard id, state-machine type and the [Pending]
+    flag (set while a hosted shard has applied nothing yet: a replica started a moment ago, a
+    joining replica that has not received the shard state). The type is valid in a pending entry
+    too; the lookup does not look at the flag: "hosted" means listed, ready or not. *)
+Definition shard_info := (N * sm_type * bool)%type.
+
+Definition support_regular_info (il : list shard_info) (s : N) : option bool :=
+  support_regular (map fst il) s.
 
 (** * One facade object on one NodeHost *)
 
